@@ -759,12 +759,9 @@ func (tx *Transaction) ProcessConnection(client string, cPort int, server string
 
 // ExtractGetArguments transforms an url encoded string to a map and creates ARGS_GET
 func (tx *Transaction) ExtractGetArguments(uri string) {
-	data := urlutil.ParseQuery(uri, '&')
-	for k, vs := range data {
-		for _, v := range vs {
-			tx.AddGetRequestArgument(k, v)
-		}
-	}
+	// in request order: which arguments fit under SecArgumentsLimit, and the order in which
+	// rules see them, must not depend on map iteration
+	urlutil.ParsePairs(uri, '&', tx.AddGetRequestArgument)
 }
 
 // AddGetRequestArgument
